@@ -27,7 +27,7 @@ def perm_case(run, specs, perm, fname, env):
         exp = np.take(exp, ix, axis=k)
     run.case(("perm", fname, tuple(perm)) + sig(specs), sample={"op": fname, "perm": list(perm), "basis": core.describe_basis(specs)})
     run.count("function " + fname)
-    tol = (1e-6 if fname.startswith("eri") else 1e-9) * max(1e-300, float(np.abs(a0).max()))
+    tol = pf.rel_tol(fname, a0)
     if a1.shape != exp.shape or np.abs(a1 - exp).max() > tol:
         bad = None if a1.shape != exp.shape else tuple(int(i) for i in np.unravel_index(np.argmax(np.abs(a1 - exp)), a1.shape))
         pmax = 2 * max(max(s.exps) for s in specs)
@@ -47,17 +47,17 @@ def symmetry_case(run, specs, env):
     run.case(("symm",) + sig(specs))
     for name in ("overlap", "kinetic", "nuclear_attraction"):
         a = pf.FUNCS[name][0](basis, env)
-        if np.abs(a - a.T).max() > 1e-9 * max(1e-300, np.abs(a).max()):
+        if np.abs(a - a.T).max() > (1e-9 * np.abs(a).max() + 1e-12):
             run.violation(f"{name} matrix is not symmetric", dict(rep, function=name, signature={"kind": "symmetric"}))
             ok = False
     for name in ("moment", "point_charge"):
         a = pf.FUNCS[name][0](basis, env)
-        if np.abs(a - a.transpose(1, 0, 2)).max() > 1e-9 * max(1e-300, np.abs(a).max()):
+        if np.abs(a - a.transpose(1, 0, 2)).max() > (1e-9 * np.abs(a).max() + 1e-12):
             run.violation(f"{name} array is not symmetric in its basis indices", dict(rep, function=name, signature={"kind": "symmetric"}))
             ok = False
     for name in ("momentum", "angular_momentum"):
         a = pf.FUNCS[name][0](basis, env)
-        if np.abs(a - np.conj(a.transpose(1, 0, 2))).max() > 1e-9 * max(1e-300, np.abs(a).max()) or np.abs(a.real).max() > 1e-9 * max(1e-300, np.abs(a).max()):
+        if np.abs(a - np.conj(a.transpose(1, 0, 2))).max() > (1e-9 * np.abs(a).max() + 1e-12) or np.abs(a.real).max() > (1e-9 * np.abs(a).max() + 1e-12):
             run.violation(f"{name} array is not Hermitian / purely imaginary", dict(rep, function=name, signature={"kind": "hermitian"}))
             ok = False
     return ok
@@ -96,13 +96,13 @@ def block_orientation_case(run, sa, sb):
     ok = True
     for name, x, y, tr in tests:
         sc = max(1e-300, float(np.abs(x).max()))
-        if np.abs(x - y.transpose(tr)).max() > 1e-9 * sc:
+        if np.abs(x - y.transpose(tr)).max() > 1e-9 * sc + 1e-12:
             run.violation(f"{name}.construct_array_contraction(s1, s2) is not the transpose of (s2, s1)",
                           {"case": "orient2", "basis": core.describe_basis([sa, sb]), "function": name, "signature": {"kind": "block-orientation"}})
             ok = False
     from gbasis.integrals.momentum import MomentumIntegral
     x, y = MomentumIntegral.construct_array_contraction(a, b), MomentumIntegral.construct_array_contraction(b, a)
-    if np.abs(x - np.conj(y.transpose(2, 3, 0, 1, 4))).max() > 1e-9 * max(1e-300, float(np.abs(x).max())):
+    if np.abs(x - np.conj(y.transpose(2, 3, 0, 1, 4))).max() > 1e-9 * float(np.abs(x).max()) + 1e-12:
         run.violation("MomentumIntegral.construct_array_contraction(s1, s2) is not the conjugate transpose of (s2, s1)",
                       {"case": "orient2", "basis": core.describe_basis([sa, sb]), "function": "MomentumIntegral", "signature": {"kind": "block-orientation"}})
         ok = False
